@@ -114,7 +114,7 @@ func openTable(c *Ctx, data []byte, idx int, viaFile bool) (*reftable.Reader, fu
 // RunC01: a written table reads back exactly.
 func RunC01(c *Ctx) {
 	r := c.Rep
-	r.Rule = "case = one generated table (config x limits x record set from gen.GenTable(seed, index)) written by the real Writer and scanned by the real Reader; distinct = hash of the produced file bytes; non-trivial = the writer accepted it and it holds >= 2 records"
+	r.Rule = "case = one generated table (config x limits x record set from gen.GenTable(seed, index)) written by the real Writer and scanned by the real Reader; distinct = hash of the produced file bytes; non-trivial = the writer accepted it and it holds >= 2 records; also counted as cases: the same table written while another Writer is active (nested in every Write call / eight goroutines) - bytes must equal the undisturbed table"
 	n := c.N(1500, 60000)
 	props := []string{"C01"}
 	for idx := 0; idx < n; idx++ {
@@ -429,7 +429,7 @@ func GenSeekTable(seed int64, idx int) *gen.Table {
 // RunC02: seeking lands on the first record >= key.
 func RunC02(c *Ctx) {
 	r := c.Rep
-	r.Rule = "case = one seek (SeekRef/SeekLog/ReadRef/ReadLogAt) on a writer-produced table, keys from every class around every record key (exact, predecessor, successor, prefix, last byte +-1, empty, beyond last); expected = suffix of the generator's own list; distinct = (table file hash, kind, key); non-trivial = the table has >= 2 blocks in the sought section or the key is not the first record"
+	r.Rule = "case = one seek (SeekRef/SeekLog/ReadRef/ReadLogAt) on a writer-produced table, keys from every class around every record key (exact, predecessor, successor, prefix, last byte +-1, empty, beyond last); expected = suffix of the generator's own list; distinct = (table file hash, kind, key); non-trivial = the table has >= 2 blocks in the sought section or the key is not the first record; plus, per table, 400 Next calls spread over 2..4 iterators of the one Reader that are open at the same time (interleaved-iterators oracle); plus per table/view a few hundred Next calls spread over 2..4 iterators of the ONE Reader/Merged that are open at the same time and advanced in turn, new seeks issued in between (interleaved-iterators oracle: each yields what it yields alone)"
 	n := c.N(400, 6000)
 	props := []string{"C02"}
 	for idx := 0; idx < n; idx++ {
